@@ -20,7 +20,7 @@ RULE = (
     "FunctionCluster config; with and without memory cache; filesystem and memory) and driven by a second generated history of storage operations and by function-level call sequences "
     "(hits, misses, forget, forget_all, put_metadata with and without store_with_data, get_metadata, memento, list). Oracle: zero mutating audit events under the data and metadata roots "
     "and an unchanged tree digest; reads agree with the model of the pre-populated store; memoize returns without error and without effect; forget_* and write_metadata raise; misses execute "
-    "the body and return the value but store nothing. Null storage: is_memoized false, no memento, empty function list after any history, every call runs its body. Null runner: no body ever runs, "
+    "the body and return the value but store nothing. For a third of the function-level cases the store is additionally damaged before it is opened read-only (the objects some links point to are removed, as after an incomplete restore): for calls on such entries only the nothing-is-touched oracle applies. Null storage: is_memoized false, no memento, empty function list after any history, every call runs its body. Null runner: no body ever runs, "
     "every call raises. Generators: all read-only histories up to length 2/3 over a 12-op alphabet after a fixed 3-entry population (exhaustive) + Hypothesis. "
     "Non-trivial = read-only history with a memoize of a new key, a forget and a miss call; distinct by op-kind sequence."
 )
@@ -175,6 +175,7 @@ def _function_case(case, scratch):
         data = os.path.join(d, "data")
         roots = []
         memo = set()
+        damaged = set()
         if mode == "readonly":
             env.set_env(d, {"c": FilesystemStorageBackend(path=data)})
             for k in case["pre"]:
@@ -182,6 +183,18 @@ def _function_case(case, scratch):
                 memo.add(k)
             if case.get("pre_meta") and case["pre"]:
                 tfuncs.val.put_metadata("log", b"x", case["pre"][0])
+            # a store that was restored / copied incompletely: for some memoized calls the object a link points to is
+            # missing (the link itself is there). Whatever the read-only backend then answers for such a call, it must
+            # not repair, clean up or otherwise touch the store.
+            for k in case.get("damage", []):
+                if k in memo:
+                    h = tfuncs.val.fn_reference().with_args(k).arg_hash
+                    for dirpath, _dirs, files in os.walk(data):
+                        if os.sep + ".versions" in dirpath:
+                            for fn_ in files:
+                                if h in fn_ and not fn_.endswith(".link"):
+                                    os.remove(os.path.join(dirpath, fn_))
+                    damaged.add(k)
             cache_mb = 0.01 if case.get("cache") else None
             st = _open_ro("fs", case["how"], data, data, cache_mb)
             env.set_env(d, {"c": st})
@@ -201,6 +214,18 @@ def _function_case(case, scratch):
             for i, op in enumerate(case["ops"]):
                 name, k = op[0], op[1] if len(op) > 1 else None
                 try:
+                    if k in damaged or (damaged and name in ("list", "forget_all")):
+                        # only the "nothing is touched" oracle applies to calls whose stored objects are missing
+                        labels.add("op-on-damaged-entry")
+                        try:
+                            {"call": lambda: tfuncs.val(k), "memento": lambda: tfuncs.val.memento(k), "list": lambda: tfuncs.val.list_mementos(),
+                             "get_meta": lambda: tfuncs.val.get_metadata("log", args=(k,)), "forget": lambda: tfuncs.val.forget(k),
+                             "forget_all": lambda: tfuncs.val.forget_all(),
+                             "put_meta": lambda: tfuncs.val.put_metadata("log", b"new", k, store_with_data=bool(op[2]))}[name]()
+                        except Exception:
+                            pass
+                        rt.take()
+                        continue
                     if name == "call":
                         try:
                             r = ("ok", tfuncs.val(k))
@@ -275,7 +300,7 @@ def _function_case(case, scratch):
                 out.violation("read-only (%s): store tree digest changed" % case["how"], symptom="tree-changed", how=case["how"])
         out.labels = sorted(labels | {"fmode:" + mode} | ({"how:" + case["how"]} if mode == "readonly" else set()))
         out.nontrivial = {"miss", "forget"} <= labels or mode != "readonly"
-        out.nt_key = [mode, case.get("how"), case.get("cache"), sorted(case.get("pre", [])), [o[:1] + o[2:] for o in case["ops"]]]
+        out.nt_key = [mode, case.get("how"), case.get("cache"), sorted(case.get("pre", [])), sorted(case.get("damage", [])), [o[:1] + o[2:] for o in case["ops"]]]
         return out
     finally:
         rt.TABLE.clear()
@@ -335,10 +360,12 @@ def strategy(thorough):
         st.tuples(st.just("put_meta"), st.integers(0, 5), st.booleans()).map(list),
         st.sampled_from([["forget_all"], ["list"]]))
     function_case = st.builds(
-        lambda mode, how, cache, pre, pm, ops: {"level": "function", "mode": mode, "how": how, "cache": cache, "pre": sorted(pre), "pre_meta": pm, "ops": ops},
+        lambda mode, how, cache, pre, pm, ops, dmg: {"level": "function", "mode": mode, "how": how, "cache": cache, "pre": sorted(pre), "pre_meta": pm, "ops": ops,
+                                                    "damage": sorted(set(pre) & set(dmg))},
         st.sampled_from(["readonly", "readonly", "readonly", "nullstorage", "nullrunner"]),
         st.sampled_from(["arg", "config", "create", "cluster", "arg-over-config"]), st.booleans(),
-        st.lists(st.integers(0, 5), max_size=4, unique=True), st.booleans(), st.lists(fop, min_size=1, max_size=12))
+        st.lists(st.integers(0, 5), max_size=4, unique=True), st.booleans(), st.lists(fop, min_size=1, max_size=12),
+        st.integers(0, 2).flatmap(lambda i: st.just([]) if i else st.lists(st.integers(0, 5), min_size=1, max_size=3, unique=True)))
     return st.integers(0, 2).flatmap(lambda i: storage_case() if i == 0 else function_case)
 
 
